@@ -359,5 +359,6 @@ def build(tier, repo):
                   "residual norms ignore the unreferenced upper triangles (documented relative norms)")
     for q in ("conelp", "sdp"):
         rc.norm_discipline(r7, w, "coneprog", q)
+    rc.cone_product_rule(r7, w, "coneprog", "conelp")
     r7.require(8)
     return chk
